@@ -29,7 +29,7 @@ NAMES = {"plain": "f.txt", "space": "a b.txt", "squote": "it's", "dquote": 'q"q'
          "star": "s*r", "qmark": "q?", "bracket": "[b]", "dash": "-n", "unicode": "ü☃", "semicolon": "a;b", "amp": "a&b",
          "backslash": "b\\c", "trailing-space": "t ", "hash": "#h", "tilde": "~t", "paren": "p(1)"}
 CONTENTS = {"empty": "", "text": "hello", "trailing-newline": "hello\n", "padded": "  padded  ", "unicode": "é€ ✓\n",
-            "multiline": "l1\nl2\n\nl4\n", "only-newlines": "\n\n"}
+            "multiline": "l1\nl2\n\nl4\n", "only-newlines": "\n\n", "cjk-long": "漢字テスト" * 40, "ascii-long": "0123456789" * 30}
 STATES = ["absent", "file", "dir", "symlink", "dangling"]
 NAME_GROUP = {"plain": "plain", "unicode": "unicode", "space": "space", "trailing-space": "space", "squote": "quote",
               "dquote": "quote", "dollar": "shell-meta", "backtick": "shell-meta", "semicolon": "shell-meta", "amp": "shell-meta",
@@ -194,8 +194,8 @@ def check_chunk(chunk):
     asyncio.set_event_loop(loop)
     conns = []
 
-    def fresh_remote():
-        c = ShellRemoteConnector("rem", scratch)
+    def fresh_remote(bufsize=65536):
+        c = ShellRemoteConnector("rem", scratch, transferBufferSize=bufsize)
         conns.append(c)
         return SimpleNamespace(deployment_manager=FakeDeploymentManager({"rem": c}), data_manager=FakeDataManager())
 
@@ -217,7 +217,7 @@ def check_chunk(chunk):
                     arg = content
                 if op == "glob":
                     arg = item["arg"].replace("{name}", name)
-                rctx = fresh_remote()
+                rctx = fresh_remote(item.get("bufsize", 65536))
                 res = loop.run_until_complete(one(op, name, state, arg, lroot, rroot, lctx, rctx, lloc, rloc, content))
                 for c in conns:
                     try:
@@ -232,6 +232,7 @@ def check_chunk(chunk):
                 distinct.add((op, NAME_GROUP[ncls], state, item.get("content"), res["local"][0], bool(msgs)))
                 if msgs:
                     suffix = (f"|content={item['content']}" if item.get("content") and op in ("read_text", "write_text") else "") + (
+                        f"|buffer={item['bufsize']}" if item.get("bufsize") else "") + (
                         f"|pattern={item['arg']}" if op == "glob" else "") + (f"|top_down={item['arg']}" if op == "walk" else "")
                     if op == "glob" and NAME_GROUP[ncls] in ("space", "quote", "shell-meta", "dash"):
                         key = "C24|glob|cause=pattern-interpolated-unquoted-and-output-split-on-whitespace"
@@ -269,7 +270,11 @@ def all_items(tier):
         add(op="mkdir_nested", state=st)
     for c in CONTENTS:
         add(op="write_text", state="absent", content=c)
-        add(op="read_text", state="file", content=c)
+        # a transfer buffer smaller than the text: the writer must send every BYTE of the encoded text, in several chunks
+        add(op="write_text", state="absent", content=c, bufsize=16)
+        add(op="write_text", state="absent", content=c, bufsize=64)
+        if c not in ("cjk-long", "ascii-long"):
+            add(op="read_text", state="file", content=c)
     add(op="write_text", state="file", content="text")
     add(op="read_text", state="absent", content="text")
     add(op="read_text", state="symlink", content="text")
